@@ -102,6 +102,9 @@ def check(case, ctx):
     if not refinable and not fixed_regions:
         ctx.count("die_without_cells_skipped")
         return
+    if len(refinable) + len(fixed_regions) > 300:
+        ctx.count("die_with_too_many_cells_skipped")      # the Allocation constructor checks all pairs: a sliver region split 2^k times would take minutes
+        return
     scale = max(case["die"]["W"], case["die"]["H"])
     # pre-compute which modules touch a refinable cell (squares are created by the call itself -> emulate for the decision only)
     zero = bool(case["zero"])
